@@ -427,7 +427,7 @@ func (self Value) getByPath(pathes ...Path) (Value, []int) {
 	case proto.MAP:
 		kt = desc.Key().Type()
 		et = desc.Elem().Type()
-		if s, err := p.SkipAllElements(desc.BaseId(), desc.IsPacked()); err != nil {
+		if s, err := p.SkipAllElementsOf(desc); err != nil {
 			en := err.(Node)
 			return errValue(en.ErrCode().Behavior(), "invalid map node.", err), address
 		} else {
@@ -435,7 +435,7 @@ func (self Value) getByPath(pathes ...Path) (Value, []int) {
 		}
 	case proto.LIST:
 		et = desc.Elem().Type()
-		if s, err := p.SkipAllElements(desc.BaseId(), desc.IsPacked()); err != nil {
+		if s, err := p.SkipAllElementsOf(desc); err != nil {
 			en := err.(Node)
 			return errValue(en.ErrCode().Behavior(), "invalid list node.", err), address
 		} else {
@@ -975,7 +975,7 @@ func (self Value) FieldByName(name string) (v Value) {
 			typDesc := f.Type()
 			if typDesc.IsMap() || typDesc.IsList() {
 				it.p.Read = tagPos
-				if _, err := it.p.SkipAllElements(i, typDesc.IsPacked()); err != nil {
+				if _, err := it.p.SkipAllElementsOf(typDesc); err != nil {
 					return errValue(meta.ErrRead, "SkipAllElements in LIST/MAP failed", err)
 				}
 				s = tagPos
